@@ -15,21 +15,22 @@ import (
 // makes the client panic.
 
 type c05Scenario struct {
-	BackPressure int        `json:"backpressure_window,omitempty"` // >0: both receive windows are this small and the server stops reading while it sends
-	Held         int        `json:"held_stanzas_before,omitempty"`
-	WebSocket    bool       `json:"websocket"`
-	Component    bool       `json:"component"`
-	Client       ClientOpts `json:"client"`
-	Server       NegScript  `json:"server"`
-	Inbound      []InEl     `json:"inbound"`
-	Cut          bool       `json:"cut"`
-	CutAt        int64      `json:"cut_at"`
-	CutKind      string     `json:"cut_kind"`
-	Seg          int        `json:"segmentation"`
-	LatencyNs    int64      `json:"latency_ns"`
-	Dawdle       int        `json:"handler_dawdle"`
-	Reply        bool       `json:"handler_sends"`
-	Chunk        int        `json:"server_write_chunk"`
+	AfterReconnect bool       `json:"after_reconnect,omitempty"`     // the session under test was re-established by Resume after an earlier loss
+	BackPressure   int        `json:"backpressure_window,omitempty"` // >0: both receive windows are this small and the server stops reading while it sends
+	Held           int        `json:"held_stanzas_before,omitempty"`
+	WebSocket      bool       `json:"websocket"`
+	Component      bool       `json:"component"`
+	Client         ClientOpts `json:"client"`
+	Server         NegScript  `json:"server"`
+	Inbound        []InEl     `json:"inbound"`
+	Cut            bool       `json:"cut"`
+	CutAt          int64      `json:"cut_at"`
+	CutKind        string     `json:"cut_kind"`
+	Seg            int        `json:"segmentation"`
+	LatencyNs      int64      `json:"latency_ns"`
+	Dawdle         int        `json:"handler_dawdle"`
+	Reply          bool       `json:"handler_sends"`
+	Chunk          int        `json:"server_write_chunk"`
 }
 
 func init() {
@@ -61,6 +62,7 @@ func runC05(e *Engine, g G, o RunOpt) RunInfo {
 		sc.Held = g.Range("held", 2, 4)
 	}
 	bpR := sc.BackPressure > 0 && !o.Avoiding("backpressure-ack-request")
+	sc.AfterReconnect = !sc.Component && !sc.WebSocket && sc.BackPressure == 0 && g.Pct("after-reconnect", 20)
 	sc.Chunk = []int{100000, 700, 64}[g.N("chunk", 3)]
 	n := 0
 	switch g.Weighted("len", 5, 3, 1) {
@@ -198,6 +200,24 @@ func runC05(e *Engine, g G, o RunOpt) RunInfo {
 			}
 			conn = s.Conn
 			sender = s.W.Client
+			if sc.AfterReconnect {
+				// lose this session and have the application resume: everything below happens on the new connection
+				c0 := s.Conn
+				c0.Pipe.Cli.CutAt = c0.End.TotalWritten
+				c0.Pipe.Cli.CutErr = io.EOF
+				if e.WaitUntilFor("first-loss", time.Minute, func() bool { return countState(s.W.Events, xmpp.StateDisconnected) > 0 }) {
+					return
+				}
+				e.Sleep(time.Second)
+				err, _ := e.Call("Resume", s.W.Client.Resume)
+				if err != nil || len(s.Srv.Conns) != 2 {
+					return
+				}
+				e.Sleep(100 * time.Millisecond)
+				conn = s.Srv.Conns[1]
+				s.W.Handled = nil
+				e.Probe("c05.after_reconnect")
+			}
 		}
 		established = true
 		cli = conn.Pipe.Cli
